@@ -1,2 +1,53 @@
-(** C07 - placeholder *)
-From VG Require Import Model.Serve.
+(** C07 - REST binding follows google.api.http; to-REST-and-back is the identity.
+    Statements only; proofs in Proofs/PercentProofs.v, Proofs/RouterProofs.v, Proofs/ConfigProofs.v.
+
+    Modelled and proved: the path level - escaping and unescaping of variable values, which
+    segments a variable captures, which binding a request line selects (C06, C17).  Not modelled:
+    the mapping between message fields and JSON bodies / query parameters (protojson, the field
+    setters of params.go); for that part the check is the correspondence suite restbind alone
+    (REST -> message, message -> REST -> message, ill-typed parameters), and the theorems below say
+    nothing about it. *)
+From VG Require Import Model.Bytes Model.Percent Model.Router Gen.Generated.
+From VG Require Import Proofs.PercentProofs Proofs.RouterProofs.
+Open Scope Z_scope.
+
+(** A value put into a single path segment comes back unchanged: unescaping inverts escaping
+    for every byte string. *)
+Theorem C07_single_segment_roundtrip : forall s, wf_bytes s = true -> path_unescape false (path_escape false s) = Some s.
+Proof. exact path_escape_single_roundtrip. Qed.
+Print Assumptions C07_single_segment_roundtrip.
+
+(** A single-segment variable captures exactly its own segment, unescaped once. *)
+Theorem C07_capture_single_segment : forall i segs seg,
+  nth_error segs i = Some seg -> capture (mkVar i (Some (S i))) segs = path_unescape false seg.
+Proof.
+  intros i segs seg H. unfold capture, var_index. cbn [v_end v_start].
+  replace (S i - i)%nat with 1%nat by (rewrite Nat.sub_succ_l, Nat.sub_diag; auto).
+  assert (E : firstn 1 (skipn i segs) = [seg]).
+  { revert segs H. induction i as [|i IH]; intros segs H; destruct segs as [|x r]; try discriminate.
+    - injection H as ->. reflexivity.
+    - cbn [skipn]. apply IH. exact H. }
+  rewrite E. cbn [length Nat.ltb Nat.leb unescape_all]. unfold path_unescape.
+  destruct (unescape false seg); reflexivity.
+Qed.
+Print Assumptions C07_capture_single_segment.
+
+(** ... so escaping a value into the URL and capturing it back is the identity. *)
+Theorem C07_single_variable_roundtrip : forall i segs v,
+  wf_bytes v = true -> nth_error segs i = Some (path_escape false v) -> capture (mkVar i (Some (S i))) segs = Some v.
+Proof.
+  intros i segs v W H. rewrite (C07_capture_single_segment i segs _ H). apply path_escape_single_roundtrip. exact W.
+Qed.
+Print Assumptions C07_single_variable_roundtrip.
+
+(** For a variable spanning several segments the code keeps an existing escaped slash in place
+    of escaping its '%', and normalises it to upper case; the identity therefore fails for a value
+    containing the characters "%2f".  (This witness is the recorded finding, replayed on the
+    implementation by the restbind suite.) *)
+Theorem C07_multi_segment_roundtrip_refuted :
+  exists s, wf_bytes s = true /\ path_unescape true (path_escape true s) <> Some s.
+Proof. exists (s2b "a%2fb"). split; [reflexivity|]. vm_compute. discriminate. Qed.
+Print Assumptions C07_multi_segment_roundtrip_refuted.
+
+Example C07_ex_upper_is_kept : path_unescape true (path_escape true (s2b "a%2Fb")) = Some (s2b "a%2Fb").
+Proof. vm_compute. reflexivity. Qed.
